@@ -259,7 +259,7 @@ fn univ_for(n: usize, sel: u8) -> u8 {
         2 => n + 1,
         _ => n + 3,
     };
-    u.max(1).min(24) as u8
+    u.max(1).min(if n > 17 { 96 } else { 24 }) as u8
 }
 
 fn strategy(prop: Prop, camp: Campaign) -> impl Strategy<Value = Case> {
